@@ -76,12 +76,15 @@ def valid_cells():
             yield {"detector": "PELT", "params": params, "n": n, "p": p, "data": kind, "nan": nan, "n_min": 2 * msl}
     # MovingWindow
     for cs, bw, ts, (level, mdi_hi) in itertools.product([None, L2, GV, GC], [1, 2, 4, 7], tuned,
-                                                         [(0.01, False), (0.5, True), (1e-8, False), (0.99, False)]):
+                                                         [(0.01, False), (0.5, True), (1e-8, False), (0.99, False),
+                                                          # "level > 0": also levels below the spacing of doubles around 1 (the default
+                                                          # threshold is then infinite: nothing is detected, but the configuration runs)
+                                                          (1e-17, False), (1e-300, False)]):
         mdi = int(max(1, bw / 2 - 1)) if mdi_hi else 1
         params = {"change_score": cs, "bandwidth": bw, "threshold_scale": ts, "level": level,
                   "min_detection_interval": mdi}
         for n, p, kind, nan in data_axes(2 * bw, ps=(1, 2)):
-            if level in (1e-8, 0.99) and kind not in ("const0.1", "step"):
+            if level in (1e-8, 0.99, 1e-17, 1e-300) and kind not in ("const0.1", "step"):
                 continue
             yield {"detector": "MovingWindow", "params": params, "n": n, "p": p, "data": kind, "nan": nan, "n_min": 2 * bw}
     # Seeded / Circular binary segmentation
